@@ -616,6 +616,8 @@ def _rows_chart_st(draw, tier, tempo, chart_types, max_rows):
             pool.add(b)
     pool = sorted(pool)
     ch["notes"] = _walk_columns(draw, ch["keys"], pool, 8 if big else 4)
+    if draw(st.integers(0, 11)) == 0:
+        ch["notes"] = []  # a placeholder difficulty: only '0' rows (it still has its header and the file's tempo list)
     ch["rows"] = rows
     ch["style"] = draw(_chart_style_st(n_meas, rows))
     return ch
